@@ -35,7 +35,11 @@ def gen(rng, tier):
         nbase = rng.randint(2, 5)
         e = gen_expr(rng, rng.randint(1, 5), nbase)
         envs = [[rng.randint(0, 1) for _ in range(nbase)] for _ in range(8)]
-        cases.append({"kind": "algebra", "data": [e, envs]})
+        c = {"kind": "algebra", "data": [e, envs]}
+        if rng.random() < 0.4:
+            # some base filters are real DFTAFilter objects (either polarity) over leaf programs
+            c["bases"] = [rng.choice([["stub"], ["dfta", 1], ["dfta", 0]]) for _ in range(nbase)]
+        cases.append(c)
     for _ in range(n_obs):
         var_types = rng.choice([[S.INT], [S.INT, S.INT], [S.LIST(S.INT)], [S.LIST(S.INT), S.INT], [S.INT, S.BOOL]])
         inputs = [[2] and [P.gen_value(rng, t) for t in var_types] for _ in range(rng.randint(1, 3))]
@@ -50,6 +54,18 @@ def gen(rng, tier):
             continue
         seq = [rng.choice(pool) for _ in range(rng.randint(12, 40))]
         cases.append({"kind": "obseq", "data": [skip, inputs, seq]})
+    # list-valued outputs whose concatenation over the reference inputs coincides although the
+    # outputs differ input by input: ([1],[2,3]) versus ([1,2],[3])
+    for _ in range(n_obs // 6):
+        seqv = [rng.randint(0, 4) for _ in range(rng.randint(2, 5))]
+        i, j = rng.sample(range(len(seqv) + 1), 2)
+        L = S.LIST(S.INT)
+        lst = lambda xs: [2] + [[0, x] for x in xs]
+        inputs = [[lst(seqv[:i]), lst(seqv[:j])], [lst(seqv[i:]), lst(seqv[j:])]]
+        progs = [[0, [1, 0, L]], [0, [1, 1, L]], [1, [0, 16, S.PRIMS[16][2]], [0, [1, 0, L]]],
+                 [1, [0, 16, S.PRIMS[16][2]], [0, [1, 1, L]]]]
+        seq = [rng.choice(progs) for _ in range(rng.randint(4, 10))]
+        cases.append({"kind": "obseq", "data": [[0, 1], inputs, seq]})
     return cases
 
 
@@ -105,6 +121,13 @@ def describe(case, mo):
 
 
 def shrink(case):
+    for c in _shrink(case):
+        if "bases" in case:
+            c["bases"] = case["bases"]
+        yield c
+
+
+def _shrink(case):
     if case["kind"] == "algebra":
         e, envs = case["data"]
         if len(envs) > 1:
